@@ -87,6 +87,13 @@ type producer struct {
 	// partition was marked addedToTxn client-side (marking happens only
 	// on produce success).
 	producedInTxn atomic.Bool
+
+	// purgedAddedToTxn is set when a topic is purged while one of its
+	// partitions was added to the current transaction. Purging abandons
+	// the recBuf that carries the addedToTxn mark, so EndTransaction
+	// consults this to still issue the EndTxn; otherwise the broker-side
+	// transaction would stay open and be merged into the next one.
+	purgedAddedToTxn atomic.Bool
 }
 
 // BufferedProduceRecords returns the number of records currently buffered for
@@ -275,6 +282,7 @@ func (p *producer) purgeTopics(topics []string) {
 	p.topics.storeData(toStore)
 	p.unknownTopicsMu.Unlock()
 
+	var addedToTxn bool
 	for _, d := range purged {
 		for _, p := range d.partitions {
 			r := p.records
@@ -304,7 +312,14 @@ func (p *producer) purgeTopics(topics []string) {
 			r.mu.Lock()
 			r.failAllRecords(errPurged)
 			r.mu.Unlock()
+
+			if r.addedToTxn.Load() {
+				addedToTxn = true
+			}
 		}
+	}
+	if addedToTxn {
+		p.purgedAddedToTxn.Store(true)
 	}
 }
 
